@@ -350,3 +350,34 @@ class PSub(PBase):
 class POther:
     name: str
     size: int = 1
+
+
+# ------------------------------------------------------------------ rules (C11, C12)
+from entity_query_language import Add, infer, refinement, alternative  # noqa: E402
+
+
+@symbol
+@dataclass(eq=False)
+class Built:
+    """instances constructed by rule inference"""
+    a: object = None
+    b: object = None
+    tag: str = ''
+
+
+@symbol
+@dataclass(eq=False)
+class BuiltB(Built):
+    pass
+
+
+@symbol
+@dataclass(eq=False)
+class BuiltC(Built):
+    pass
+
+
+@symbol
+@dataclass(eq=False)
+class BuiltD(Built):
+    pass
